@@ -81,7 +81,7 @@ fn main() {
         let cfg = v["config"].as_str().unwrap_or("");
         let k: usize = cfg.split("timeouts that fire: ").nth(1).and_then(|r| r.split(',').next()).and_then(|x| x.trim().parse().ok()).unwrap_or(0);
         let pbound: usize = cfg.split("preemption bound ").nth(1).and_then(|x| x.trim().parse().ok()).unwrap_or(2);
-        for fam in ["C08", "L01", "L02", "L03", "L07", "L17", "L06", "L16", "L05"] {
+        for fam in ["C08", "L01", "L02", "L03", "L07", "L17", "L06", "L16", "L05", "L04", "L18"] {
             for t in ["quick", "thorough"] {
                 let progs = programs_for(fam, t);
                 if let Some(p) = progs.iter().find(|p| p.history() == hist) {
@@ -183,7 +183,7 @@ fn parent(family: &str, tier: &str, progs: &[Program], merge: Option<String>) ->
     let t0 = clock::wall_s();
     let exe = std::env::current_exe().unwrap();
     let pb = if tier == "thorough" { 3 } else { 2 };
-    let ks: Vec<usize> = if family == "C08" { if tier == "thorough" { vec![0, 1, 2] } else { vec![0, 1] } } else if family == "L05" { vec![1_000_000] } else { vec![0] };
+    let ks: Vec<usize> = if family == "C08" { if tier == "thorough" { vec![0, 1, 2] } else { vec![0, 1] } } else if family == "L05" || family == "L18" { vec![1_000_000] } else { vec![0] };
     // job list
     let mut jobs: Vec<(usize, usize)> = Vec::new();
     for (i, p) in progs.iter().enumerate() {
@@ -420,6 +420,8 @@ fn family_property(f: &str) -> &'static str {
         "C08" => "C08",
         "L07" => "C07",
         "L17" => "C17",
+        "L04" => "C04",
+        "L18" => "C18",
         "L05" => "C05",
         "L06" => "C06",
         "L16" => "C16",
